@@ -213,7 +213,7 @@ def asBoolM : MVal F → Except EErr Bool
   | .num x => .ok (!(isNaN x) && !(NumAlg.eq x (ofNat 0)))
   | .str s => .ok (s != "")
   | .nodes l => .ok (!l.isEmpty)
-  | .int _ => .error (.raised "asBool")
+  | .int _ => .error (.crash .unknownType)
 
 def asStringM (d : Doc) : MVal F → Except EErr String
   | .nilv => .ok ""
@@ -221,7 +221,7 @@ def asStringM (d : Doc) : MVal F → Except EErr String
   | .num x => .ok (Spec.numToStr x)
   | .str s => .ok s
   | .nodes l => .ok (match l with | [] => "" | r :: _ => stringValue d r)
-  | .int _ => .error (.raised "asString")
+  | .int _ => .error (.crash .unknownType)
 
 def asNumberM (d : Doc) : MVal F → F
   | .nodes l => match l with
@@ -245,7 +245,7 @@ def xtypeOf : MVal F → Except EErr XType
   | .num _ => .ok .number
   | .str _ => .ok .string
   | .nodes _ => .ok .nodeSet
-  | _ => .error (.raised "getXPathType")
+  | _ => .error (.crash .unknownType)
 
 /-- `cmpBooleanBooleanF` after the repair: = and != on truth values, relational on 0/1 -/
 def cmpBoolF (op : Spec.CmpOp) (a b : Bool) : Bool :=
@@ -269,7 +269,7 @@ def cmpM (d : Doc) (op : Spec.CmpOp) (m n : MVal F) : Except EErr Bool := do
   | .nodes l, .num b => pure (l.any (fun x => Spec.cmpNum op (goParseFloat (sv x)) b))
   | .nodes l, .str b => pure (l.any (fun x => cmpStrF op b (sv x)))   -- (literal, node value) as in cmpNodeSetString
   | .nodes la, .nodes lb => pure (la.any (fun x => lb.any (fun y => cmpStrF op (sv x) (sv y))))
-  | _, _ => let _ := (t1, t2); .error (.raised "getXPathType")
+  | _, _ => let _ := (t1, t2); .error (.crash .unknownType)
 
 def logicalVal (d : Doc) (op : String) (m n : MVal F) : Except EErr (MVal F) :=
   match Spec.CmpOp.ofString op with
